@@ -772,3 +772,81 @@ Proof.
     apply do_withdraw_reward_static in He1. destruct He1 as (_ & _ & A & _). exact A.
   - inversion H; subst. reflexivity.
 Qed.
+
+(** ** bank effects, exactly *)
+Definition coin_amt (d : denom) (cs : list coin) : N :=
+  sumN (map (fun c : coin => if fst c =? d then snd c else 0) cs).
+
+Lemma send_coin_bal e from to c e' :
+  send_coin e from to c = Some e' ->
+  0 < snd c /\
+  forall a d, bal e' a d + (if eqbNN (a, d) (from, fst c) then snd c else 0)
+              = bal e a d + (if eqbNN (a, d) (to, fst c) then snd c else 0).
+Proof.
+  unfold send_coin. destruct c as [dn x]. cbn [fst snd]. intros H. check_inv H as Hz.
+  bind_inv H as e1 He1. inversion H; subst e'. clear H.
+  apply debit_spec in He1. destruct He1 as (Hle & Hs & Ho & _).
+  split; [lia|]. intros a d.
+  destruct (eqbNN (a, d) (to, dn)) eqn:Et.
+  - apply eqbNN_eq in Et. inversion Et; subst a d. rewrite bal_credit_same.
+    destruct (eqbNN (to, dn) (from, dn)) eqn:Ef.
+    + apply eqbNN_eq in Ef. inversion Ef; subst. rewrite Hs. lia.
+    + rewrite Ho; [lia|]. intros E. apply eqbNN_eq in E. congruence.
+  - rewrite bal_credit_other by (intros E; apply eqbNN_eq in E; congruence).
+    destruct (eqbNN (a, d) (from, dn)) eqn:Ef.
+    + apply eqbNN_eq in Ef. inversion Ef; subst. rewrite Hs. lia.
+    + rewrite Ho; [lia|]. intros E. apply eqbNN_eq in E. congruence.
+Qed.
+
+Lemma send_coins_bal cs : forall e from to e',
+  send_coins e from to cs = Some e' ->
+  forall a d, bal e' a d + (if a =? from then coin_amt d cs else 0)
+              = bal e a d + (if a =? to then coin_amt d cs else 0).
+Proof.
+  unfold send_coins, coin_amt. induction cs as [|c cs IH]; intros e from to e' H a d; cbn [foldM map sumN] in *.
+  - inversion H; subst. destruct (a =? from), (a =? to); lia.
+  - bind_inv H as e1 He1. apply send_coin_bal in He1. destruct He1 as [_ He1].
+    specialize (IH _ _ _ _ H a d). specialize (He1 a d).
+    unfold eqbNN in He1. cbn [fst snd] in He1.
+    destruct (a =? from), (a =? to), (d =? fst c) eqn:Ed; cbn [andb] in He1;
+      rewrite ?(N.eqb_sym (fst c) d), ?Ed; lia.
+Qed.
+
+Lemma swap_execute_bal e sender m e' :
+  swap_execute e sender m = Some e' -> forall a d, bal e a d <= bal e' a d.
+Proof.
+  unfold swap_execute. destruct m as [from target to]. intros H a d.
+  destruct (e_swapmode e); [|discriminate|].
+  - bind_inv H as out Ho. destruct (out =? 0); inversion H; subst; [lia|apply bal_credit_ge].
+  - inversion H; subst. apply bal_credit_ge.
+Qed.
+
+(** the swap stub credits only the recipient, only in the target denom *)
+Lemma swap_execute_bal_other e sender from target to e' a d :
+  swap_execute e sender (SSwapDenom from target to) = Some e' ->
+  (a, d) <> ((match to with Some x => x | None => sender end), target) -> bal e' a d = bal e a d.
+Proof.
+  unfold swap_execute. intros H Hne.
+  destruct (e_swapmode e); [|discriminate|].
+  - bind_inv H as out Ho. destruct (out =? 0); inversion H; subst; [reflexivity|].
+    apply bal_credit_other. exact Hne.
+  - inversion H; subst. apply bal_credit_other. exact Hne.
+Qed.
+
+Lemma do_delegate_bal_ge e x v c e' :
+  do_delegate e x v c = Some e' -> bal e x usei - snd c <= bal e' x usei.
+Proof.
+  unfold do_delegate. intros H. check_inv H as Hc. check_inv H as Hv. check_inv H as Hb.
+  pose proof (payout_if_entry_spec e x v) as (_ & _ & Hge).
+  bind_inv H as e2 He2. apply debit_spec in He2. destruct He2 as (_ & Hb2 & _ & _).
+  inversion H; subst e'. unfold bal at 2. cbn [e_bank set_del]. fold (bal e2 x usei).
+  rewrite Hb2. specialize (Hge x usei). lia.
+Qed.
+
+Lemma do_withdraw_reward_bal e x v e' :
+  do_withdraw_reward e x v = Some e' ->
+  (forall a d, bal e a d <= bal e' a d) /\ (forall a d, a <> withdraw_addr e x -> bal e' a d = bal e a d).
+Proof.
+  unfold do_withdraw_reward. destruct (delegation e x v); [|discriminate]. intros H. inversion H; subst.
+  destruct (payout_spec e x v) as (_ & A & B). auto.
+Qed.
